@@ -76,3 +76,19 @@ pub fn run_seed(batch: u64, prop: &str, family: u32, i: u64) -> u64 {
     let p = fnv1a(prop.as_bytes());
     mix64(mix64(batch ^ p).wrapping_add(u64::from(family)).wrapping_mul(0x9E37_79B9_7F4A_7C15) ^ mix64(i))
 }
+
+/// The verification root: where `evidence/`, `replays/` and `known-findings.jsonl` live.
+/// `VERIF_DIR` if set, else the current directory when it looks like the root (the check
+/// script changes into it), else `/verif`.
+#[must_use]
+pub fn verif_dir() -> String {
+    if let Ok(d) = std::env::var("VERIF_DIR") {
+        return d;
+    }
+    if let Ok(cwd) = std::env::current_dir() {
+        if cwd.join("properties.jsonl").exists() {
+            return cwd.display().to_string();
+        }
+    }
+    "/verif".to_string()
+}
